@@ -28,7 +28,7 @@ ASSUMPTIONS = [
     "'immediately' = the two status requests are among the frames the console receives within 50 ms (+ link latency) of the new connection",
     "poll deadlines within 0.1 s of a group status arrival or of a connection change are not judged",
 ]
-PROBES = ["c14.fin", "c14.rst", "c14.blackhole", "c14.reboot", "c14.write_error", "c14.state_changed_while_down", "c14.unchanged_refresh",
+PROBES = ["c14.poll_write_error", "c14.fin", "c14.rst", "c14.blackhole", "c14.reboot", "c14.write_error", "c14.state_changed_while_down", "c14.unchanged_refresh",
           "c14.outage_beyond_heartbeat", "c14.second_outage", "c14.poll_after_outage", "c14.poll_fired", "c14.poll_repeated", "c14.poll_pushed_back"]
 
 
@@ -46,8 +46,14 @@ def generate(rng, index: int, tier: str) -> dict:
     for a in inst["acs"]:
         tl.append({"at": 5.5, "op": "user.subscribe", "name": f"ac{a['ac']}", "target": ["ac", a["ac"]], "method": "subscribe"})
     tl.append({"at": 5.5, "op": "user.subscribe", "name": "at", "target": ["at"], "method": "subscribe"})
-    kind = rng.choice(["fin", "rst", "blackhole", "reboot", "write_error"])
+    kind = rng.choice(["fin", "rst", "blackhole", "reboot", "write_error"] + (["poll_write_error"] * 2 if gen == 4 else []))
     t_o = G.pick_time(rng, 6.0, 700.0, anchors=[300.0, 300.09375, 330.0, 600.0])
+    if kind == "poll_write_error":
+        # the first write to meet the dead link is the client's own 300 s group-status poll (its deadline is moved off the
+        # heartbeat grid by an unsolicited group status frame)
+        t_g = G.dyadic(rng, 20.0, 250.0)
+        t_o = t_g + 300.0
+        tl.append({"at": t_g, "op": "console.publish", "what": "zone", "ids": None})
     changed = rng.random() < 0.6
     # reconnect fate
     r = rng.random()
@@ -66,6 +72,8 @@ def generate(rng, index: int, tier: str) -> dict:
         tl.append({"at": t_o, "op": "net.blackhole", "on": True})
     elif kind == "reboot":
         tl.append({"at": t_o, "op": "console.reboot"})
+    elif kind == "poll_write_error":
+        tl.append({"at": t_o - G.EPS, "op": "net.fail_write", "nth": 1, "err": rng.choice(["ECONNRESET", "EPIPE"])})
     else:
         tl.append({"at": t_o, "op": "net.fail_write", "nth": rng.choice([1, 2]), "err": "ECONNRESET"})
         tl.append({"at": t_o + G.EPS, "op": "user.api", "target": ["at"], "call": "check_for_updates", "args": {}})
